@@ -6,72 +6,6 @@ open PS PS.G PS.Heapq
 set_option linter.unusedSectionVars false
 variable {S : Type} [DecidableEq S]
 
-theorem addEmpty_bankOf (s : St S) (nt nt' : NT S Unit) (ci : Nat) : (s.addEmpty nt ci).bankOf nt' = s.bankOf nt' := by
-  unfold St.addEmpty; split <;> rfl
-
-theorem addEmpty_emptiesOf_other (s : St S) (nt nt' : NT S Unit) (ci : Nat) (h : nt' ≠ nt) :
-    (s.addEmpty nt ci).emptiesOf nt' = s.emptiesOf nt' := by
-  unfold St.addEmpty; split
-  · rfl
-  · show (AList.lookup nt' (AList.insert nt _ s.empties)).getD [] = _
-    rw [AList.lookup_insert_ne _ _ h]; rfl
-
-theorem addEmpty_contains (s : St S) (nt : NT S Unit) (ci ci' : Nat) :
-    ((s.addEmpty nt ci).emptiesOf nt).contains ci' = ((s.emptiesOf nt).contains ci' || decide (ci' = ci)) := by
-  unfold St.addEmpty; split
-  · next h =>
-    by_cases hc : ci' = ci
-    · subst hc; simp only [decide_true, Bool.or_true]; exact h
-    · simp [hc]
-  · have : ({ s with empties := AList.insert nt (s.emptiesOf nt ++ [ci]) s.empties } : St S).emptiesOf nt = s.emptiesOf nt ++ [ci] := by
-      show (AList.lookup nt (AList.insert nt _ s.empties)).getD [] = _
-      rw [AList.lookup_insert_self]; rfl
-    rw [this]
-    simp [List.contains_eq_mem, List.mem_append]
-
-/-- what `epilogue` does to the tables -/
-theorem epilogue_shape (s : St S) (nt : NT S Unit) (fr : Frame) :
-    (∀ S', (epilogue s nt fr).queueOf S' = s.queueOf S') ∧ (∀ S', (epilogue s nt fr).bankOf S' = s.bankOf S') ∧
-    (epilogue s nt fr).deleted = s.deleted ∧
-    (∀ S', S' ≠ nt → (epilogue s nt fr).emptiesOf S' = s.emptiesOf S') ∧
-    (∀ ci', ((epilogue s nt fr).emptiesOf nt).contains ci' =
-      ((s.emptiesOf nt).contains ci' || (decide (ci' = fr.ci) && (!fr.hasGen && !fr.noSucc)))) ∧
-    (∀ S', S' ≠ nt → (epilogue s nt fr).clOf S' = s.clOf S') ∧
-    (epilogue s nt fr).clOf nt = (match s.queueOf nt with | [] => s.clOf nt | e :: _ => s.clOf nt ++ [e.cost]) := by
-  obtain ⟨m1, m2⟩ := markEmpty_tables s nt fr
-  have m3 : ∀ S', (markEmpty s nt fr).bankOf S' = s.bankOf S' := by
-    intro S'; unfold markEmpty; split
-    · exact addEmpty_bankOf s nt S' fr.ci
-    · rfl
-  have m4 : (markEmpty s nt fr).deleted = s.deleted := by
-    unfold markEmpty; split
-    · exact St.addEmpty_deleted s nt fr.ci
-    · rfl
-  have m5 : ∀ S', S' ≠ nt → (markEmpty s nt fr).emptiesOf S' = s.emptiesOf S' := by
-    intro S' hne; unfold markEmpty; split
-    · exact addEmpty_emptiesOf_other s nt S' fr.ci hne
-    · rfl
-  have m6 : ∀ ci', ((markEmpty s nt fr).emptiesOf nt).contains ci' =
-      ((s.emptiesOf nt).contains ci' || (decide (ci' = fr.ci) && (!fr.hasGen && !fr.noSucc))) := by
-    intro ci'; unfold markEmpty; split
-    · next hc =>
-      have := addEmpty_contains s nt fr.ci ci'
-      show ((s.addEmpty nt fr.ci).emptiesOf nt).contains ci' = _
-      rw [this, hc]; simp
-    · next hc =>
-      have : (!fr.hasGen && !fr.noSucc) = false := by simpa using hc
-      rw [this]; simp
-  unfold epilogue
-  simp only
-  rw [m2 nt]
-  cases hq : s.queueOf nt with
-  | nil => exact ⟨m2, m3, m4, m5, m6, fun S' _ => m1 S', m1 nt⟩
-  | cons e q =>
-    simp only
-    refine ⟨m2, m3, m4, m5, m6, fun S' hne => ?_, ?_⟩
-    · rw [St.clOf_setCL]; simp [hne, m1]
-    · rw [St.clOf_setCL]; simp [m1]
-
 theorem rule_of_cost (E : Env S) (nt : NT S Unit) (f : Sym) (kids : List Prog) (y : Rat) (h : costOf E (.node f kids) nt = some y) :
     ∃ rl, E.G.rule? nt f = some rl := by
   simp only [costOf] at h
